@@ -92,15 +92,18 @@ CLAIMED = {
     ),
     'C09': dict(
         category='model_checking',
-        text='Claimed in part. For the in-place normalize() inside every kind of URI/IRI (reference) and on stand-alone paths, over ALL buffers, with the rebuilt content over-approximated by ANY '
-             'sequence of segments: the result is a valid value of the same type; its decomposition is "path = rewritten window, every other component unchanged" (marked-language inclusion in the '
-             '10-marker automaton), so scheme, authority, query, fragment are never altered; absolute stays absolute, relative stays relative; window accounting and exact tiling of shield + content; '
-             'all entry points (normalize, Path ==/cmp/hash) go through the one normalising iterator.',
-        design_ref='DESIGN.md §3 Engine D (D1–D3), §4 C09',
-        note='NOT decided: that the segment sequence is the RFC 3986 §5.2.4 / Errata 4547 one, idempotence, agreement of normalized()/iterator/in-place on values, spill paths of the inline buffers '
-             '(all functions of unbounded run-time stacks). Genuine defect F5 (no shield in normalize) was repaired by a fix: commit; the check reports it with witnesses on the pre-fix tree.',
-        technique='path-sensitive effect analysis of MIR (abstract interpretation, affine domain, all CFG paths) + regular language closure with virtual cut markers (static analysis)',
-        engine='D+A',
+        text='Claimed in part. (a) The SEQUENCE: the normalised segments are a left-to-right fold with a stack, and a fold is decided by its step: ONE ITERATION of the loop of NormalizedSegmentsImpl::new is executed by Engine S with the '
+             'current segment as the text under analysis (all byte strings; the specification automaton tells its class ".", "..", other), for each abstract stack top (empty / kept ".." / ordinary) and each value of `relative`, and its stack '
+             'operations are compared with RFC 3986 5.2.4 + Errata 4547 ("." dropped; ".." pops, is kept when relative and the stack is empty or its top is a kept "..", is dropped at the root of an absolute path; anything else pushed); '
+             'the code may look at the stack only through last(); the result is the stack in order; segments() yields the segments in order (C12) — so normalized_segments() is the specified sequence, by induction. '
+             '(b) The in-place rewrite: its collecting loop appends "/" exactly before every segment but the first and then exactly that segment\'s bytes (every CFG path of one iteration), so the text written is shield ++ join(sequence, "/"); '
+             'over ALL buffers the result is a valid value of the same type, its decomposition is "path = rewritten window, every other component unchanged" (marked-language inclusion), absolute stays absolute and relative stays relative, '
+             'the "./" shield is written exactly in the documented cases, window accounting and exact tiling hold; all entry points (normalize, Path ==/cmp/hash) go through the one normalising iterator.',
+        design_ref='DESIGN.md §3 Engine D (D1–D3), §4 C09, §10.13',
+        note='NOT decided: the rendering of the normalized() COPY (symbolic_push + trailing "/" of a final dot segment), idempotence as an equality of values, the spill paths of the inline buffers. The induction step '
+             '(fold = specification when the steps agree) is the usual one and is not mechanised. Genuine defect F5 (no shield in normalize) was repaired by a fix: commit.',
+        technique='scanner-style abstract execution of one loop iteration x class automaton (fold step) + per-iteration CFG rule (join) + path-sensitive effect analysis with regular language closure (static analysis)',
+        engine='S+D+A',
     ),
     'C10': dict(
         category='model_checking',
